@@ -267,6 +267,30 @@ class BlackbirdProgram:
 
         kwargs = new_kwargs
 
+        def substitute(value):
+            """Substitute the parameter values into the symbolic elements of a list or array."""
+            if isinstance(value, list):
+                return [substitute(v) for v in value]
+
+            if isinstance(value, np.ndarray) and value.dtype == object:
+                populated = copy.deepcopy(value)
+                for i in np.ndindex(value.shape):
+                    populated[i] = substitute(value[i])
+                return populated
+
+            if isinstance(value, sym.Expr):
+                par = list(value.free_symbols)
+                func = sym.lambdify(par, value)
+
+                try:
+                    vals = {str(p): kwargs[str(p)] for p in par}
+                except KeyError:
+                    raise ValueError("Invalid value for free parameter provided")
+
+                return func(**vals)
+
+            return value
+
         # set values for args and kwargs in operations
         for op in prog._operations: # pylint: disable=protected-access
             if 'args' not in op:
@@ -284,6 +308,9 @@ class BlackbirdProgram:
 
                     op['args'][idx] = func(**vals)
 
+                elif isinstance(a, (list, np.ndarray)):
+                    op['args'][idx] = substitute(a)
+
             for k, v in op['kwargs'].items():
                 if isinstance(v, sym.Expr):
                     par = list(v.free_symbols)
@@ -295,6 +322,9 @@ class BlackbirdProgram:
                         raise ValueError("Invalid value for free parameter provided")
 
                     op['kwargs'][k] = func(**vals)
+
+                elif isinstance(v, (list, np.ndarray)):
+                    op['kwargs'][k] = substitute(v)
 
         # set values for variables and arrays
         for k, v in prog._var.items(): # pylint: disable=protected-access
